@@ -323,3 +323,27 @@ def a7(ctx):
     if not obs:
         raise AnalysisError("i;ascii-casemap is not registered")
     return obs
+
+
+@rule("C12", "A8", floor=1, kind="S",
+      desc="text is matched by code points: neither the card text nor the search text is Unicode-normalised (or "
+           "otherwise rewritten) on the way to the collation - normalising only one side makes a card unfindable by its own text")
+def a8(ctx):
+    obs = []
+    n = 0
+    mods = (CARD, COLL, "xandikos.vcard")
+    for mname in mods:
+        for fi in ctx.P.funcs_in_module(mname):
+            n += 1
+            bad = [src(c) for c in walk_local(fi.node) if isinstance(c, ast.Call) and (dotted(c.func) or "").startswith("unicodedata.")]
+            bad += [src(c) for c in walk_local(fi.node) if isinstance(c, ast.Call) and isinstance(c.func, ast.Attribute)
+                    and c.func.attr in ("translate", "expandtabs")]
+            if bad:
+                obs.append(ctx.bad(fi.qualname, fi.where, "card / search text is not normalised",
+                                   "%s applies %s: the text the filters see is no longer the stored text code point for code point, so a card "
+                                   "holding decomposed characters is not found by them (and is found by text it does not contain)" % (fi.short, ", ".join(bad))))
+    obs.append(ctx.ob(not obs, "xandikos.carddav", "xandikos/", "no Unicode normalisation on the vCard evaluation path",
+                      "%d functions in %s, none normalises text" % (n, ", ".join(mods)), "text is normalised"))
+    if n < 10:
+        raise AnalysisError("vCard evaluation modules not found")
+    return obs
